@@ -5,6 +5,7 @@
 package sim
 
 import (
+	"time"
 	"encoding/binary"
 	"fmt"
 	"io"
@@ -43,6 +44,7 @@ const (
 	Pass       Action = iota
 	KillBefore        // close the connection; kfake never sees the request
 	DropAfter         // kfake handles the request; the response is swallowed and the connection closed
+	KillLater         // kfake gets the request; the connection is closed KillDelay later (e.g. while a JoinGroup is parked)
 )
 
 // FaultFn decides the fate of the nth (0-based, per API key, cluster-wide) request frame.
@@ -54,6 +56,8 @@ type Net struct {
 	mu    sync.Mutex
 	seen  map[int16]int
 	Fault FaultFn
+	// KillDelay is the (virtual) time between handing a KillLater request to kfake and closing the connection (default 30ms).
+	KillDelay time.Duration
 	// OnRequest / OnResponse observe every request frame handed to kfake and every response frame
 	// kfake wrote (in request order per connection), after the fault decision.
 	OnRequest  func(connID int, key int16, frame []byte, act Action)
@@ -208,6 +212,13 @@ func (c *Conn) Read(p []byte) (int, error) {
 				c.mu.Unlock()
 				c.kill()
 				return 0, io.EOF
+			}
+			if act == KillLater {
+				d := c.n.KillDelay
+				if d == 0 {
+					d = 30 * time.Millisecond
+				}
+				go func() { time.Sleep(d); c.kill() }()
 			}
 			c.pend = append(c.pend, pending{key, act == DropAfter})
 			c.out = append(c.out, frame...)
